@@ -30,13 +30,19 @@ OpsetOK(l) == MaxVersion(l) = 13
 
 \* ---- initializers: good ones and every kind of bad one (from the C12 space), as raw TensorProto descriptions
 RawF32(dims, n) == [code |-> 1, dims |-> dims, enc |-> "raw", field |-> "none", raw |-> [k \in 1..(4 * n) |-> (k * 7) % 251], vals |-> <<>>]
-InitKinds == {"good", "short", "long", "ragged", "negdim", "badtype", "badtype_typed", "empty_dims_two", "huge_dim"}
+InitKinds == {"good", "short", "long", "ragged", "negdim", "negdim_pair", "negdim_pair3", "negdim_zero", "dims_wrap_0", "dims_wrap_n",
+              "badtype", "badtype_typed", "empty_dims_two", "huge_dim"}
 InitOf(k) ==
    CASE k = "good"    -> RawF32(<<2, 3>>, 6)
      [] k = "short"   -> RawF32(<<2, 3>>, 5)
      [] k = "long"    -> RawF32(<<2, 3>>, 7)
      [] k = "ragged"  -> [RawF32(<<2>>, 2) EXCEPT !.raw = <<1, 2, 3, 4, 5, 6, 7>>]
      [] k = "negdim"  -> RawF32(<<-2, 3>>, 6)
+     [] k = "negdim_pair"  -> RawF32(<<-2, -3>>, 6)          \* the product of the dims is the (positive) payload size
+     [] k = "negdim_pair3" -> RawF32(<<-1, 2, -3>>, 6)
+     [] k = "negdim_zero"  -> RawF32(<<-1, 0>>, 0)
+     [] k = "dims_wrap_0"  -> RawF32(<<1, 1>>, 0) @@ [bigdims |-> <<<<0, 0, 1>>, <<0, 0, 1>>>>]            \* 2^32 * 2^32 = 0 (mod 2^64)
+     [] k = "dims_wrap_n"  -> RawF32(<<274177, 1, 2>>, 2) @@ [bigdims |-> <<<<>>, <<53505, 61852, 15664>>, <<>>>>]   \* (2^64 + 1) * 2 = 2 (mod 2^64)
      [] k = "badtype" -> [RawF32(<<2>>, 2) EXCEPT !.code = 10]
      [] k = "badtype_typed" -> [code |-> 8, dims |-> <<2>>, enc |-> "typed", field |-> "int32_data", raw |-> <<>>, vals |-> <<<<1, 0, 0, 0>>, <<2, 0, 0, 0>>>>]
      [] k = "empty_dims_two" -> RawF32(<<>>, 2)
